@@ -32,6 +32,37 @@ func (c *Ctx) expectPoly(R, key string, pos token.Pos, n *Normer, v ssa.Value, r
 	return c.Check(R, key, pos, pEqual(got, want), want.String(), got.String())
 }
 
+// expectPolyUnder: like expectPoly, for a value that is only defined by cases (a result of a helper
+// with several returns, a phi): the alternatives that are compatible with the condition `reach` under
+// which the value is used must all have the expected normal form.
+func (c *Ctx) expectPolyUnder(R, key string, pos token.Pos, n *Normer, fn *ssa.Function, reach *Cond, v ssa.Value, ref string) bool {
+	n.Opaque = false
+	n.OpaqueWhy = nil
+	direct := n.Norm(v)
+	want := MustRef(ref)
+	if pEqual(direct, want) {
+		return c.Check(R, key, pos, true, want.String(), direct.String())
+	}
+	var feasible []valCase
+	for _, cs := range n.valueCases(fn, nil, v, 0) {
+		if eq, _ := CondEquivalent(cAnd(reach, cs.cond), cFalse); !eq {
+			feasible = append(feasible, cs)
+		}
+	}
+	if len(feasible) == 0 {
+		return c.expectPoly(R, key, pos, n, v, ref)
+	}
+	ok := true
+	found := ""
+	for _, cs := range feasible {
+		if !pEqual(cs.val, want) {
+			ok = false
+		}
+		found += cs.val.String() + " when " + cs.cond.String() + "; "
+	}
+	return c.Check(R, key, pos, ok, want.String(), found)
+}
+
 // expectCond compares a condition with a reference condition (semantic equivalence).
 func (c *Ctx) expectCond(R, key string, pos token.Pos, got *Cond, ref string) bool {
 	want := MustRefCond(ref)
